@@ -488,6 +488,19 @@ fn any_val_of(k: Kind, id: u8) -> Val {
         Kind::Func => Val::Func(FuncVal(id)),
     }
 }
+/// kinds without arrays: used on one side where array/array would make the extracted code recurse
+fn any_kind_no_arr() -> Kind {
+    let k: u8 = kani::any();
+    kani::assume(k < 6);
+    match k {
+        0 => Kind::Null,
+        1 => Kind::Bool,
+        2 => Kind::Num,
+        3 => Kind::Str,
+        4 => Kind::Obj,
+        _ => Kind::Func,
+    }
+}
 fn any_binop() -> BinaryOpType {
     use BinaryOpType::*;
     let k: u8 = kani::any();
@@ -564,7 +577,18 @@ fn sym(op: BinaryOpType) -> &'static str {
 }
 
 fn op_table_case(op: BinaryOpType) {
-    let (ka, kb) = (any_kind(), any_kind());
+    // array/array comparison and equality recurse into the elements (not decided within the caps):
+    // for those six rows the array kind appears on one side only, chosen by a symbolic bit *before*
+    // the values are built, so the array/array arm is syntactically unreachable
+    let (ka, kb) = if matches!(op, BinaryOpType::Eq | BinaryOpType::Neq | BinaryOpType::Lt | BinaryOpType::Gt | BinaryOpType::Lte | BinaryOpType::Gte) {
+        if kani::any() {
+            (any_kind(), any_kind_no_arr())
+        } else {
+            (any_kind_no_arr(), any_kind())
+        }
+    } else {
+        (any_kind(), any_kind())
+    };
     let a = any_val_of(ka, 1);
     let b = any_val_of(kb, 2);
     let want = defined(op, ka, kb);
@@ -589,56 +613,98 @@ fn op_table_case(op: BinaryOpType) {
 macro_rules! op_table {
     ($name:ident, $op:ident) => {
         #[kani::proof]
-        #[kani::unwind(8)]
+        #[kani::unwind(3)]
         pub fn $name() {
             op_table_case(BinaryOpType::$op);
         }
     };
 }
-//@harness name=optab_mul tier=quick timeout=600 unwind=8 desc="operator type table row `*`: for every pair of operand kinds the application fails exactly when the Jsonnet operator table does not define it" bounds="7x7 operand kinds; numbers: integers -128..=127; strings: <= 2 letters of a,b,c; arrays: <= 1 number; objects/functions: opaque"
+//@harness name=optab_mul tier=quick timeout=600 unwind=3 desc="operator type table row `*`: for every pair of operand kinds the application fails exactly when the Jsonnet operator table does not define it" bounds="7x7 operand kinds (array/array excluded for the comparison and equality rows); numbers: integers -128..=127; strings: <= 2 letters of a,b,c; arrays: <= 1 number; objects/functions: opaque"
 op_table!(optab_mul, Mul);
-//@harness name=optab_div tier=quick timeout=600 unwind=8 desc="operator type table row `/`: for every pair of operand kinds the application fails exactly when the Jsonnet operator table does not define it" bounds="7x7 operand kinds; numbers: integers -128..=127; strings: <= 2 letters of a,b,c; arrays: <= 1 number; objects/functions: opaque"
+//@harness name=optab_div tier=quick timeout=600 unwind=3 desc="operator type table row `/`: for every pair of operand kinds the application fails exactly when the Jsonnet operator table does not define it" bounds="7x7 operand kinds (array/array excluded for the comparison and equality rows); numbers: integers -128..=127; strings: <= 2 letters of a,b,c; arrays: <= 1 number; objects/functions: opaque"
 op_table!(optab_div, Div);
-//@harness name=optab_mod tier=quick timeout=600 unwind=8 desc="operator type table row `%`: for every pair of operand kinds the application fails exactly when the Jsonnet operator table does not define it" bounds="7x7 operand kinds; numbers: integers -128..=127; strings: <= 2 letters of a,b,c; arrays: <= 1 number; objects/functions: opaque"
+//@harness name=optab_mod tier=quick timeout=600 unwind=3 desc="operator type table row `%`: for every pair of operand kinds the application fails exactly when the Jsonnet operator table does not define it" bounds="7x7 operand kinds (array/array excluded for the comparison and equality rows); numbers: integers -128..=127; strings: <= 2 letters of a,b,c; arrays: <= 1 number; objects/functions: opaque"
 op_table!(optab_mod, Mod);
-//@harness name=optab_add tier=quick timeout=600 unwind=8 desc="operator type table row `+`: for every pair of operand kinds the application fails exactly when the Jsonnet operator table does not define it" bounds="7x7 operand kinds; numbers: integers -128..=127; strings: <= 2 letters of a,b,c; arrays: <= 1 number; objects/functions: opaque"
+//@harness name=optab_add tier=quick timeout=600 unwind=3 desc="operator type table row `+`: for every pair of operand kinds the application fails exactly when the Jsonnet operator table does not define it" bounds="7x7 operand kinds (array/array excluded for the comparison and equality rows); numbers: integers -128..=127; strings: <= 2 letters of a,b,c; arrays: <= 1 number; objects/functions: opaque"
 op_table!(optab_add, Add);
-//@harness name=optab_sub tier=quick timeout=600 unwind=8 desc="operator type table row `-`: for every pair of operand kinds the application fails exactly when the Jsonnet operator table does not define it" bounds="7x7 operand kinds; numbers: integers -128..=127; strings: <= 2 letters of a,b,c; arrays: <= 1 number; objects/functions: opaque"
+//@harness name=optab_sub tier=quick timeout=600 unwind=3 desc="operator type table row `-`: for every pair of operand kinds the application fails exactly when the Jsonnet operator table does not define it" bounds="7x7 operand kinds (array/array excluded for the comparison and equality rows); numbers: integers -128..=127; strings: <= 2 letters of a,b,c; arrays: <= 1 number; objects/functions: opaque"
 op_table!(optab_sub, Sub);
-//@harness name=optab_shl tier=quick timeout=600 unwind=8 desc="operator type table row `<<`: for every pair of operand kinds the application fails exactly when the Jsonnet operator table does not define it" bounds="7x7 operand kinds; numbers: integers -128..=127; strings: <= 2 letters of a,b,c; arrays: <= 1 number; objects/functions: opaque"
+//@harness name=optab_shl tier=quick timeout=600 unwind=3 desc="operator type table row `<<`: for every pair of operand kinds the application fails exactly when the Jsonnet operator table does not define it" bounds="7x7 operand kinds (array/array excluded for the comparison and equality rows); numbers: integers -128..=127; strings: <= 2 letters of a,b,c; arrays: <= 1 number; objects/functions: opaque"
 op_table!(optab_shl, Lhs);
-//@harness name=optab_shr tier=quick timeout=600 unwind=8 desc="operator type table row `>>`: for every pair of operand kinds the application fails exactly when the Jsonnet operator table does not define it" bounds="7x7 operand kinds; numbers: integers -128..=127; strings: <= 2 letters of a,b,c; arrays: <= 1 number; objects/functions: opaque"
+//@harness name=optab_shr tier=quick timeout=600 unwind=3 desc="operator type table row `>>`: for every pair of operand kinds the application fails exactly when the Jsonnet operator table does not define it" bounds="7x7 operand kinds (array/array excluded for the comparison and equality rows); numbers: integers -128..=127; strings: <= 2 letters of a,b,c; arrays: <= 1 number; objects/functions: opaque"
 op_table!(optab_shr, Rhs);
-//@harness name=optab_lt tier=quick timeout=600 unwind=8 desc="operator type table row `<`: for every pair of operand kinds the application fails exactly when the Jsonnet operator table does not define it" bounds="7x7 operand kinds; numbers: integers -128..=127; strings: <= 2 letters of a,b,c; arrays: <= 1 number; objects/functions: opaque"
+//@harness name=optab_lt tier=quick timeout=600 unwind=3 desc="operator type table row `<`: for every pair of operand kinds the application fails exactly when the Jsonnet operator table does not define it" bounds="7x7 operand kinds (array/array excluded for the comparison and equality rows); numbers: integers -128..=127; strings: <= 2 letters of a,b,c; arrays: <= 1 number; objects/functions: opaque"
 op_table!(optab_lt, Lt);
-//@harness name=optab_gt tier=quick timeout=600 unwind=8 desc="operator type table row `>`: for every pair of operand kinds the application fails exactly when the Jsonnet operator table does not define it" bounds="7x7 operand kinds; numbers: integers -128..=127; strings: <= 2 letters of a,b,c; arrays: <= 1 number; objects/functions: opaque"
+//@harness name=optab_gt tier=quick timeout=600 unwind=3 desc="operator type table row `>`: for every pair of operand kinds the application fails exactly when the Jsonnet operator table does not define it" bounds="7x7 operand kinds (array/array excluded for the comparison and equality rows); numbers: integers -128..=127; strings: <= 2 letters of a,b,c; arrays: <= 1 number; objects/functions: opaque"
 op_table!(optab_gt, Gt);
-//@harness name=optab_lte tier=quick timeout=600 unwind=8 desc="operator type table row `<=`: for every pair of operand kinds the application fails exactly when the Jsonnet operator table does not define it" bounds="7x7 operand kinds; numbers: integers -128..=127; strings: <= 2 letters of a,b,c; arrays: <= 1 number; objects/functions: opaque"
+//@harness name=optab_lte tier=quick timeout=600 unwind=3 desc="operator type table row `<=`: for every pair of operand kinds the application fails exactly when the Jsonnet operator table does not define it" bounds="7x7 operand kinds (array/array excluded for the comparison and equality rows); numbers: integers -128..=127; strings: <= 2 letters of a,b,c; arrays: <= 1 number; objects/functions: opaque"
 op_table!(optab_lte, Lte);
-//@harness name=optab_gte tier=quick timeout=600 unwind=8 desc="operator type table row `>=`: for every pair of operand kinds the application fails exactly when the Jsonnet operator table does not define it" bounds="7x7 operand kinds; numbers: integers -128..=127; strings: <= 2 letters of a,b,c; arrays: <= 1 number; objects/functions: opaque"
+//@harness name=optab_gte tier=quick timeout=600 unwind=3 desc="operator type table row `>=`: for every pair of operand kinds the application fails exactly when the Jsonnet operator table does not define it" bounds="7x7 operand kinds (array/array excluded for the comparison and equality rows); numbers: integers -128..=127; strings: <= 2 letters of a,b,c; arrays: <= 1 number; objects/functions: opaque"
 op_table!(optab_gte, Gte);
-//@harness name=optab_bitand tier=quick timeout=600 unwind=8 desc="operator type table row `&`: for every pair of operand kinds the application fails exactly when the Jsonnet operator table does not define it" bounds="7x7 operand kinds; numbers: integers -128..=127; strings: <= 2 letters of a,b,c; arrays: <= 1 number; objects/functions: opaque"
+//@harness name=optab_bitand tier=quick timeout=600 unwind=3 desc="operator type table row `&`: for every pair of operand kinds the application fails exactly when the Jsonnet operator table does not define it" bounds="7x7 operand kinds (array/array excluded for the comparison and equality rows); numbers: integers -128..=127; strings: <= 2 letters of a,b,c; arrays: <= 1 number; objects/functions: opaque"
 op_table!(optab_bitand, BitAnd);
-//@harness name=optab_bitor tier=quick timeout=600 unwind=8 desc="operator type table row `|`: for every pair of operand kinds the application fails exactly when the Jsonnet operator table does not define it" bounds="7x7 operand kinds; numbers: integers -128..=127; strings: <= 2 letters of a,b,c; arrays: <= 1 number; objects/functions: opaque"
+//@harness name=optab_bitor tier=quick timeout=600 unwind=3 desc="operator type table row `|`: for every pair of operand kinds the application fails exactly when the Jsonnet operator table does not define it" bounds="7x7 operand kinds (array/array excluded for the comparison and equality rows); numbers: integers -128..=127; strings: <= 2 letters of a,b,c; arrays: <= 1 number; objects/functions: opaque"
 op_table!(optab_bitor, BitOr);
-//@harness name=optab_bitxor tier=quick timeout=600 unwind=8 desc="operator type table row `^`: for every pair of operand kinds the application fails exactly when the Jsonnet operator table does not define it" bounds="7x7 operand kinds; numbers: integers -128..=127; strings: <= 2 letters of a,b,c; arrays: <= 1 number; objects/functions: opaque"
+//@harness name=optab_bitxor tier=quick timeout=600 unwind=3 desc="operator type table row `^`: for every pair of operand kinds the application fails exactly when the Jsonnet operator table does not define it" bounds="7x7 operand kinds (array/array excluded for the comparison and equality rows); numbers: integers -128..=127; strings: <= 2 letters of a,b,c; arrays: <= 1 number; objects/functions: opaque"
 op_table!(optab_bitxor, BitXor);
-//@harness name=optab_eq tier=quick timeout=600 unwind=8 desc="operator type table row `==`: for every pair of operand kinds the application fails exactly when the Jsonnet operator table does not define it" bounds="7x7 operand kinds; numbers: integers -128..=127; strings: <= 2 letters of a,b,c; arrays: <= 1 number; objects/functions: opaque"
+//@harness name=optab_eq tier=quick timeout=600 unwind=3 desc="operator type table row `==`: for every pair of operand kinds the application fails exactly when the Jsonnet operator table does not define it" bounds="7x7 operand kinds (array/array excluded for the comparison and equality rows); numbers: integers -128..=127; strings: <= 2 letters of a,b,c; arrays: <= 1 number; objects/functions: opaque"
 op_table!(optab_eq, Eq);
-//@harness name=optab_neq tier=quick timeout=600 unwind=8 desc="operator type table row `!=`: for every pair of operand kinds the application fails exactly when the Jsonnet operator table does not define it" bounds="7x7 operand kinds; numbers: integers -128..=127; strings: <= 2 letters of a,b,c; arrays: <= 1 number; objects/functions: opaque"
+//@harness name=optab_neq tier=quick timeout=600 unwind=3 desc="operator type table row `!=`: for every pair of operand kinds the application fails exactly when the Jsonnet operator table does not define it" bounds="7x7 operand kinds (array/array excluded for the comparison and equality rows); numbers: integers -128..=127; strings: <= 2 letters of a,b,c; arrays: <= 1 number; objects/functions: opaque"
 op_table!(optab_neq, Neq);
-//@harness name=optab_and tier=quick timeout=600 unwind=8 desc="operator type table row `&&`: for every pair of operand kinds the application fails exactly when the Jsonnet operator table does not define it" bounds="7x7 operand kinds; numbers: integers -128..=127; strings: <= 2 letters of a,b,c; arrays: <= 1 number; objects/functions: opaque"
+//@harness name=optab_and tier=quick timeout=600 unwind=3 desc="operator type table row `&&`: for every pair of operand kinds the application fails exactly when the Jsonnet operator table does not define it" bounds="7x7 operand kinds (array/array excluded for the comparison and equality rows); numbers: integers -128..=127; strings: <= 2 letters of a,b,c; arrays: <= 1 number; objects/functions: opaque"
 op_table!(optab_and, And);
-//@harness name=optab_or tier=quick timeout=600 unwind=8 desc="operator type table row `||`: for every pair of operand kinds the application fails exactly when the Jsonnet operator table does not define it" bounds="7x7 operand kinds; numbers: integers -128..=127; strings: <= 2 letters of a,b,c; arrays: <= 1 number; objects/functions: opaque"
+//@harness name=optab_or tier=quick timeout=600 unwind=3 desc="operator type table row `||`: for every pair of operand kinds the application fails exactly when the Jsonnet operator table does not define it" bounds="7x7 operand kinds (array/array excluded for the comparison and equality rows); numbers: integers -128..=127; strings: <= 2 letters of a,b,c; arrays: <= 1 number; objects/functions: opaque"
 op_table!(optab_or, Or);
-//@harness name=optab_in tier=quick timeout=600 unwind=8 desc="operator type table row `in`: for every pair of operand kinds the application fails exactly when the Jsonnet operator table does not define it" bounds="7x7 operand kinds; numbers: integers -128..=127; strings: <= 2 letters of a,b,c; arrays: <= 1 number; objects/functions: opaque"
+//@harness name=optab_in tier=quick timeout=600 unwind=3 desc="operator type table row `in`: for every pair of operand kinds the application fails exactly when the Jsonnet operator table does not define it" bounds="7x7 operand kinds (array/array excluded for the comparison and equality rows); numbers: integers -128..=127; strings: <= 2 letters of a,b,c; arrays: <= 1 number; objects/functions: opaque"
 op_table!(optab_in, In);
+
+//@harness tier=thorough optional=1 timeout=7200 desc="array/array comparison and equality: element-wise, shorter array first on a common prefix" bounds="arrays of <= 1 small number each, the six comparison operators"
+#[kani::proof]
+#[kani::unwind(3)]
+pub fn array_compare() {
+    let a = any_val_of(Kind::Arr, 1);
+    let b = any_val_of(Kind::Arr, 2);
+    let which: u8 = kani::any();
+    kani::assume(which < 6);
+    let op = [BinaryOpType::Lt, BinaryOpType::Gt, BinaryOpType::Lte, BinaryOpType::Gte, BinaryOpType::Eq, BinaryOpType::Neq][which as usize];
+    // reference: lexicographic order on the element sequences
+    let (xa, xb) = match (&a, &b) {
+        (Val::Arr(x), Val::Arr(y)) => (*x, *y),
+        _ => unreachable!(),
+    };
+    let ea = if xa.n == 1 { match xa.e[0] { Prim::Num(v) => Some(v), _ => None } } else { None };
+    let eb = if xb.n == 1 { match xb.e[0] { Prim::Num(v) => Some(v), _ => None } } else { None };
+    let ord = match (ea, eb) {
+        (None, None) => core::cmp::Ordering::Equal,
+        (None, Some(_)) => core::cmp::Ordering::Less,
+        (Some(_), None) => core::cmp::Ordering::Greater,
+        (Some(p), Some(q)) => p.partial_cmp(&q).unwrap(),
+    };
+    let want = match which {
+        0 => ord.is_lt(),
+        1 => ord.is_gt(),
+        2 => ord.is_le(),
+        3 => ord.is_ge(),
+        4 => ord.is_eq(),
+        _ => ord.is_ne(),
+    };
+    #[cfg(verif_playback)]
+    {
+        println!("REPLAY-INPUT: a={:?} b={:?} op={:?}", a, b, op);
+        println!("REPLAY-JSONNET: {} {} {}", jsonnet_of(&a), sym(op), jsonnet_of(&b));
+        println!("REPLAY-EXPECT: value {}", want);
+    }
+    let r = bin(&a, op, &b);
+    assert!(as_bool(&r) == Some(want), "C01.array_compare arrays compare element-wise, a proper prefix is smaller");
+    kani::cover!(xa.n == 1 && xb.n == 1 && ord.is_eq(), "equal one-element arrays reached");
+    kani::cover!(xa.n == 0 && xb.n == 1, "prefix case reached");
+}
 
 //@harness tier=quick timeout=900 desc="== / != / std.equals / std.primitiveEquals over all kinds: different kinds are unequal, same primitive kinds compare by content, != is the negation, primitiveEquals rejects arrays/objects/functions" bounds="7x7 operand kinds, contents as in op_type_table"
 #[kani::proof]
-#[kani::unwind(8)]
+#[kani::unwind(3)]
 pub fn equality_table() {
-    let (ka, kb) = (any_kind(), any_kind());
+    let (ka, kb) = if kani::any() { (any_kind(), any_kind_no_arr()) } else { (any_kind_no_arr(), any_kind()) };
     let a = any_val_of(ka, 1);
     let b = any_val_of(kb, 2);
     let eq = bin(&a, BinaryOpType::Eq, &b);
